@@ -366,6 +366,47 @@ int main(int argc, char **argv)
 			}
 		}
 	}
+	/* G. MX / SRV answers with several records: the last record's RDLENGTH shrunk to 0..3 with the datagram ending right
+	   there, one record's priority made unusable or its neighbour removed (a gap in 10, 20, 30 ..), priorities swapped */
+	for (r = 0; r < 48; r++) {
+		size_t n, q2, e;
+		int ty = (r & 1) ? T_MX_ : T_SRV_, nrec, i2;
+		size_t rec[8], rdl[8];
+		if (r % nsh != shard % nsh) continue;
+		n = mk_answer(d, sizeof(d), (unsigned short)ty, 0);
+		if (!n) continue;
+		nrec = (d[6] << 8) | d[7];
+		q2 = 12;
+		while (q2 < n && d[q2]) q2 += d[q2] + 1;
+		q2 += 1 + 4;
+		e = q2;
+		for (i2 = 0; i2 < nrec && i2 < 8; i2++) {
+			rec[i2] = e; rdl[i2] = (size_t)((d[e + 10] << 8) | d[e + 11]);
+			e += 12 + rdl[i2];
+		}
+		if (nrec < 2 || nrec > 8 || e != n) continue;
+		kindname = (ty == T_MX_) ? "answer-MX-last-record-short" : "answer-SRV-last-record-short";
+		for (i2 = 0; i2 <= 3; i2++) {
+			memcpy(m, d, n);
+			m[rec[nrec - 1] + 10] = 0; m[rec[nrec - 1] + 11] = (unsigned char)i2;
+			check(QR_ANSWER, m, rec[nrec - 1] + 12 + (size_t)i2, prev, prevlen, 4096);
+		}
+		kindname = (ty == T_MX_) ? "answer-MX-priority-gap" : "answer-SRV-priority-gap";
+		/* priority of the first / a middle record made odd (not a multiple of 10) */
+		for (i2 = 0; i2 < nrec - 1; i2++) {
+			memcpy(m, d, n);
+			m[rec[i2] + 13] ^= 5;
+			check(QR_ANSWER, m, n, prev, prevlen, 4096);
+		}
+		/* a middle / the first record removed, count adjusted */
+		for (i2 = 0; i2 < nrec - 1; i2++) {
+			size_t cutlen = 12 + rdl[i2];
+			memcpy(m, d, rec[i2]);
+			memcpy(m + rec[i2], d + rec[i2] + cutlen, n - rec[i2] - cutlen);
+			m[7] = (unsigned char)(nrec - 1);
+			check(QR_ANSWER, m, n - cutlen, prev, prevlen, 4096);
+		}
+	}
 	/* F. answers whose question name is nothing but a compression pointer to outside the datagram (the name reader
 	   writes nothing): the first character used for matching replies must not come from an earlier decode */
 	for (r = 0; r < 32; r++) {
